@@ -71,6 +71,8 @@ def gen_case(seed, i, thorough):
         # fault while the exported file is read back (import side)
         return {"adf": adf, "flags": flags, "target": "absent", "fault": None,
                 "import_fault": {"syscall": "read", "kind": r.choice(["error=EIO", "error=EINTR", "error=EAGAIN"]), "when": r.randint(1, 3)}}
+    if x < 0.17:
+        return {"adf": adf, "flags": flags, "target": "absent", "fault": None, "chain": True}
     if x < 0.25:
         return {"adf": adf, "flags": flags, "target": "absent", "fault": None}
     if x < 0.45:
@@ -176,6 +178,14 @@ def execute(case, workdir):
                     if rc2 != 0 and out2.strip():
                         return ({"oracle": "V4-import-read-fault", "class": "answers-before-failure", "key": "V4/answers-before-failure",
                                  "message": "import with %s exited %s after printing %r" % (ifl, rc2, out2)}, info)
+                elif case.get("chain"):
+                    # second generation: import F, export again to G in the same run, import G
+                    rc3, out3, err3 = run_bin(["--lib", "naive", "--import", "--export", "G.json"] + case["flags"] + ["F.json"], workdir)
+                    rc4, out4, err4 = run_bin(["--lib", "naive", "--import"] + case["flags"] + ["G.json"], workdir)
+                    info["chained"] = True
+                    if rc3 != 0 or out3 != direct or rc4 != 0 or out4 != direct:
+                        return ({"oracle": "V1-round-trip", "class": "second-generation-differs", "key": "V1/second-generation",
+                                 "message": "import+re-export exited %s printing %r; import of the re-export exited %s printing %r; direct run printed %r; stderr %s %s" % (rc3, out3, rc4, out4, direct, err3[-150:], err4[-150:])}, info)
                 elif rc2 != 0 or out2 != direct:
                     orc = "V3-ack-durable" if fl else "V1-round-trip"
                     return ({"oracle": orc, "class": "import-differs" if rc2 == 0 else "import-failed", "key": "%s/import" % orc[:2],
@@ -347,6 +357,8 @@ def cmd_run(args):
             inc(nm + "_configured")
             if info.get("import_injected"):
                 inc(nm + "_fired")
+        if info.get("chained"):
+            inc("second_generation_round_trips")
         if info.get("acked"):
             inc("exports_acknowledged")
         if info.get("torn_unacked"):
